@@ -479,9 +479,10 @@ class TDefaultDict(TDict):
         return [z3.ForAll([x], f) for f in facts]
 
 
-def TGraph(attrs):
+def TGraph(attrs, key=None, cls="nx.Graph", **more):
     """networkx.Graph (and subclasses) as a record: node table and a symmetric adjacency relation over node pairs"""
-    return TRec("nx.Graph", nodes=TDict(TNode, attrs), adj=TSet(TTuple(TNode, TNode)))
+    key = key or TNode
+    return TRec(cls, nodes=TDict(key, attrs), adj=TSet(TTuple(key, key)), **more)
 
 
 class TSet(T):
